@@ -156,7 +156,10 @@ def main():
             content = content[:-1]
         dist["blank_lines"] += len(blank_after)
         dist["quoted_headers"] += sum(1 for nm in names if any(ch in nm for ch in ', "'))
-        fname = os.path.join(wd, "t%d.csv" % ti)
+        # histories: half of the tables overwrite a data file that an earlier case already read (the values are those of the file as it is now)
+        fname = os.path.join(wd, "t%d.csv" % (ti if rnd.random() < 0.5 else ti % 3))
+        earlier = open(fname).read() if os.path.exists(fname) else None
+        dist["rewritten_paths"] = dist.get("rewritten_paths", 0) + int(earlier is not None)
         with open(fname, "w") as fh:
             fh.write(content)
         dist["tables"] += 1
@@ -183,6 +186,8 @@ def main():
             key = "ok" if o[0] == "ok" else o[1]
             dist["outcomes"][key] = dist["outcomes"].get(key, 0) + 1
             replay = {"file": content, "InFieldName": field, "MissingVal": missing, "DataType": dtype}
+            if earlier is not None:
+                replay["history"] = "the same path held this text and was read before it was overwritten: %r" % earlier
             if nrows >= 2 and (use_missing or any(not float(v).is_integer() for v in cols[j])):
                 nontrivial += 1
             # ---------- oracle ----------
@@ -274,7 +279,7 @@ def main():
                 a = numpy.ma.array(numpy.array([int(v) for v in vals], dtype=numpy.int64) if asint else numpy.array(vals, dtype=float), mask=mask)
                 arrays.append(a)
                 prods.append(cc.producer(names[j], a, False))
-            outp = os.path.join(wd, "w%d.csv" % ti)
+            outp = os.path.join(wd, "w%d.csv" % (ti if rnd.random() < 0.5 else ti % 2))       # written, read back, written again ...
             cmd = csvio.EEMSWrite("w", [Argument("OutFileName", outp, 1), Argument("OutFieldNames", prods, 1)], program=Prog(wd), lineno=1)
             try:
                 cmd.run()
